@@ -527,6 +527,13 @@ ApplyHost(m, host, name, args) ==
              m1 == [m EXCEPT !.log = Append(@, EvProbe(name, args)), !.ev = <<EvProbe(name, args)>>] IN
          CASE hb.h = "probe" -> IF hb.raises THEN Raise(m1, OtherErr("ProbeError")) ELSE Ret(m1, hb.ret)
            [] hb.h = "ident" -> IF Len(args) = 1 THEN Ret(m1, args[1]) ELSE Raise(m1, TypeErr)
+           [] hb.h = "eval" ->      \* a host function that runs parser.eval on a program of its own (re-entrant): own VM record and budget,
+                                     \* own names mapping; every Exception is swallowed (the function then returns None)
+                LET vm == Len(m1.vms) + 1 IN
+                [m1 EXCEPT !.vms = Append(@, [ops |-> 0, max |-> hb.max, scopes |-> <<[s |-> "host", nid |-> hb.nid]>>]),
+                           !.k = Push(@, [f |-> "hosteval", name |-> name, cvm |-> m.cvm, nev |-> m.nev, looked |-> m.looked]),
+                           !.cvm = vm, !.nev = 0,
+                           !.ctl = [t |-> "eval", node |-> hb.tree, vm |-> vm]]
            [] hb.h = "call" ->      \* hcall(f, x...) : calls f(x...), propagating or swallowing errors
                 IF Len(args) = 0 THEN Raise(m1, TypeErr)
                 ELSE [m1 EXCEPT !.k = Push(@, [f |-> "host", name |-> name, mode |-> hb.mode]),
@@ -593,6 +600,7 @@ DoRet(m, orc) ==
            [] fr.f = "lam" -> PopScope([m0 EXCEPT !.k = Pop(@)], fr.vm)
            [] fr.f = "ho" -> RetToHo(m0, fr, v)
            [] fr.f = "host" -> [m0 EXCEPT !.k = Pop(@)]
+           [] fr.f = "hosteval" -> [m0 EXCEPT !.k = Pop(@), !.cvm = fr.cvm, !.nev = fr.nev, !.looked = fr.looked]   \* the nested eval returned v
            [] fr.f = "ast" ->
                 \* scoped_names[k] = v.eval(state): plain store into the top (host) scope, no copy
                 LET m1 == Store([m0 EXCEPT !.k = Pop(@)], fr.vm, fr.name, v) IN
@@ -610,6 +618,8 @@ DoExc(m) ==
                               ELSE PopScope([m0 EXCEPT !.k = Pop(@)], fr.vm)      \* finally: pop_scope
            [] fr.f = "host" -> IF fr.mode = "swallow" THEN [m0 EXCEPT !.k = Pop(@), !.ctl = [t |-> "ret", v |-> None]]
                                ELSE [m0 EXCEPT !.k = Pop(@)]
+           \* the nested eval of a host function raised: the function swallows it and returns None; the outer call goes on
+           [] fr.f = "hosteval" -> [m0 EXCEPT !.k = Pop(@), !.cvm = fr.cvm, !.nev = fr.nev, !.looked = fr.looked, !.ctl = [t |-> "ret", v |-> None]]
            [] OTHER -> [m0 EXCEPT !.k = Pop(@)]       \* ho, ast
 
 (***************************************************************************)
